@@ -18,6 +18,14 @@ Tie (T-diff, every run): stream `index` - random sequential op sequences on the 
 On break: harness `oracle` states the property's clauses directly on the real index / CLA.
 """
 import os
+import re
+import subprocess
+import time
+
+import verif
+
+LOCKTIE = "IstioModel.C13.LockTie"
+LOCKGEN = "IstioModel/Generated/C13LockFacts.lean"
 
 THEOREMS = ["IstioModel.C13.Theorems", "IstioModel.C13.ConcTheorems", "IstioModel.C13.ClaTheorems", "IstioModel.C13.NetTheorems",
             "IstioModel.C13.LbTheorems", "IstioModel.C13.EndToEnd"]
@@ -86,6 +94,131 @@ def oracle(ctx, stream, case_lines, rep):
     return None
 
 
+def start_race_build(ctx):
+    """go build -race of the same harness package, started in the background (it overlaps with the Lean build and the
+    streams); against a scratch worktree through the alternate go.mod that ctx.go_build() wrote."""
+    name = "c13.race"
+    extra = []
+    if os.path.realpath(verif.REPO) != "/repo":
+        name += ".alt-" + os.path.basename(ctx.work).split(".alt-")[-1]
+        extra = ["-modfile=" + os.path.join(ctx.work, "alt.go.mod")]
+    out = os.path.join(verif.BIN, name)
+    if os.path.exists(out):
+        os.remove(out)  # never run a stale binary
+    cmd = ["go", "build", "-race", "-tags", "verif"] + extra + ["-o", out, "./c13"]
+    log = open(os.path.join(ctx.work, "race-build.log"), "w")
+    p = subprocess.Popen(cmd, cwd=verif.HARNESS, env=verif.go_env(), stdout=log, stderr=subprocess.STDOUT)
+    return {"proc": p, "cmd": cmd, "out": out, "log": log, "t0": time.time()}
+
+
+def finish_race_build(ctx, rb):
+    for attempt in range(4):
+        try:
+            rc = rb["proc"].wait(timeout=2400)
+        except subprocess.TimeoutExpired:
+            rb["proc"].kill()
+            rc = 124
+        rb["log"].close()
+        txt = open(rb["log"].name).read()
+        trimmed = rc != 0 and "go-build" in txt and ("no such file or directory" in txt or "no space left on device" in txt)
+        if rc == 0 or not trimmed or attempt == 3:
+            ctx.log("go build -race ./c13 rc=%d (%.1fs, in the background)" % (rc, time.time() - rb["t0"]))
+            return rc, txt
+        # an entry of the shared Go build cache vanished while the build ran (a fact about the machine): build again
+        time.sleep((10, 20, 40)[attempt])
+        rb["log"] = open(rb["log"].name, "w")
+        rb["proc"] = subprocess.Popen(rb["cmd"], cwd=verif.HARNESS, env=verif.go_env(), stdout=rb["log"], stderr=subprocess.STDOUT)
+    return 1, ""
+
+
+def tails(ctx, prefix, n=40):
+    d, base = os.path.dirname(prefix), os.path.basename(prefix)
+    out = {}
+    for f in sorted(os.listdir(d)):
+        if f.startswith(base + ".") and f.endswith(".ops"):
+            lines = ctx.read_lines(os.path.join(d, f))
+            out[f[len(base) + 1:-4]] = [l[:400] for l in lines[-n:]]
+    return out
+
+
+def race_stress(ctx, rb):
+    """The search that goes with the lock-discipline tie: an ungated stress of the real index (updaters, deleters,
+    BuildClusterLoadAssignment / CopyEndpoints / Shardz readers) under the race detector.  Only a report of the race
+    detector, a fatal runtime error, a panic or the final sequential clause count - nothing depends on timing."""
+    rc, txt = finish_race_build(ctx, rb)
+    if rc != 0:
+        ctx.tie_broken("harness-build:c13-race", "go build -race -tags verif ./c13 failed:\n" + txt)
+        return
+    ctx.bins["c13race"] = rb["out"]
+    secs = ctx.n(6, 30)
+    out = os.path.join(ctx.work, "stress.out")
+    for f in os.listdir(ctx.work):
+        if f.startswith("stress.out"):
+            os.remove(os.path.join(ctx.work, f))
+    rc, log = ctx.harness("stress", secs, ctx.seed, out, pkg="c13race", timeout=secs + 600,
+                          env_extra={"GORACE": "halt_on_error=1 history_size=3"})
+    script = {"stream": "stress", "seconds": secs, "seed": ctx.seed,
+              "command": "GORACE=halt_on_error=1 %s stress %d %s <out>" % (os.path.relpath(rb["out"], verif.ROOT), secs, ctx.seed),
+              "op_script_tails": tails(ctx, out)}
+    if "WARNING: DATA RACE" in log:
+        frames = re.findall(r"istio\.io/istio/pilot/pkg/((?:model|xds/endpoints)\.[^\s]+?)\(\)", log)
+        first = frames[0] if frames else "?"
+        prev = "?"
+        m = re.search(r"Previous (?:read|write) at .*?\n((?:  .*\n)+)", log)
+        if m:
+            pf = re.findall(r"istio\.io/istio/pilot/pkg/((?:model|xds/endpoints)\.[^\s]+?)\(\)", m.group(1))
+            prev = pf[0] if pf else "?"
+        fp = "stress:data-race:" + "~".join(sorted([first, prev]))
+        script["race_report"] = log[:8000]
+        ctx.violation(fp, "the race detector reports unsynchronised accesses in the endpoint index / endpoint builder under "
+                          "concurrent updates, deletes and reads: the code does not take the locks the lock-region model assumes",
+                      script, True)
+        return
+    if "fatal error:" in log:
+        msg = re.search(r"fatal error: ([^\n]*)", log).group(1).strip()
+        script["runtime_output"] = log[:8000]
+        ctx.violation("stress:fatal:" + msg.replace(" ", "-"), "the Go runtime aborts under concurrent updates, deletes and reads "
+                      "of the endpoint index: " + msg, script, True)
+        return
+    lines = ctx.read_lines(out) if os.path.exists(out) else []
+    if rc != 0 or not lines:
+        ctx.tie_broken("stress-run", "rc=%s\n%s" % (rc, log[-4000:]))
+        return
+    for l in lines:
+        if l.startswith("ops "):
+            ctx.count("cov.stress.ops", int(l.split()[1]))
+    ctx.count("cov.stress.seconds", secs)
+    if lines[0].startswith("FAIL"):
+        clause = lines[0].split()[1]
+        script["verdict"] = lines[0][:6000]
+        ctx.violation("stress:" + clause, "endpoint index violates clause '%s' under an ungated concurrent stress" % clause, script, True)
+
+
+def lock_tie(ctx):
+    """T-gen: the lock facts of the checked tree (go/ast, harness/c13/facts.go), regenerated on every run; LockTie.lean
+    proves from them that writers hold the write lock and readers at least the read lock.  Returns the theorem modules."""
+    gen = os.path.join(verif.LEAN, LOCKGEN)
+    os.makedirs(os.path.dirname(gen), exist_ok=True)
+    if os.path.exists(gen):
+        os.remove(gen)
+    rc, log = ctx.harness("table", "lockfacts", gen)
+    if rc != 0 or not os.path.exists(gen):
+        ctx.tie_broken("harness-table:lockfacts", "the fact extractor did not produce %s: rc=%s %s" % (LOCKGEN, rc, log[-2000:]))
+        with open(gen, "w") as f:
+            f.write("namespace IstioModel.Generated.C13\ndef lockFacts : List (String × String × String × String × String × String × String) := []\n"
+                    "end IstioModel.Generated.C13\n")
+    ctx.checker_cmds.append("harness/bin/c13 table lockfacts lean/%s  (go/ast over the checked tree)" % LOCKGEN)
+    rc, out = ctx.lake_build([LOCKTIE])
+    if rc != 0:
+        errs = [l for l in out.split("\n") if "error" in l][:12]
+        ctx.tie_broken("lock-discipline",
+                       "the lock facts read off the checked tree no longer satisfy LockTie.lean (a write to shardsBySvc / Shards / "
+                       "ServiceAccounts / unlinked without the write lock, a read without any lock, or a moved site):\n"
+                       + "\n".join(errs) + "\n\n" + open(gen).read()[-5000:])
+        return THEOREMS
+    return THEOREMS + [LOCKTIE]
+
+
 def run(ctx):
     ctx.rule = ("index: random sequential histories (1-30 ops) of UpdateServiceEndpoints / DeleteServiceShard / DeleteShard / "
                 "PruneShard over 2-3 services x 2-3 registries; reports are fresh lists or small mutations of the registry's "
@@ -119,8 +252,11 @@ def run(ctx):
         "its loop (they take effect before or after the delete per entry; argued linearizable in notes, not proved)",
         "IstioEndpoint.Equals is modelled on the 19 fields it reads; labels are compared as key-sorted lists",
         "an endpoint's SendUnhealthyEndpoints flag agrees with the builder's supportsUnhealthyEndpoints whenever the latter is true "
-        "(hypothesis hc of member_pushable: the registries derive the flag from Service.SupportsUnhealthyEndpoints, the builder from "
-        "the same service plus the DestinationRule's minHealthPercent); the cla generator sets the flag from the process default",
+        "(hypothesis hc of member_pushable). Only the kube registry sets the flag at all (pod.go: GlobalSendUnhealthyEndpoints || "
+        "DefaultSendUnhealthyEndpoints, i.e. from the same process-wide settings the builder's Service.SupportsUnhealthyEndpoints reads; "
+        "the builder additionally looks at the DestinationRule's minHealthPercent); ServiceEntry / WorkloadEntry endpoints never carry it, "
+        "so for them a new unhealthy endpoint is NoPush even where unhealthy endpoints are served. The cla generator sets the flag "
+        "from the process settings, like the kube registry",
         "membership model: sidecar proxy (a router only in the single-network world, where it is served like a sidecar), ambient "
         "multi-network off, no waypoint / self-discovery / inference-pool cluster, no HBONE tunnel labels, no locality-LB failover / "
         "failoverPriority / zone-aware / TrafficDistribution (priorities stay 0), no DestinationRule TLS settings; a PeerAuthentication is "
@@ -142,6 +278,21 @@ def run(ctx):
         "them, the nopush clauses of the oracle are judged only on reports and shards with distinct keys (counted: cov.index.nopush-*)",
         "the pushes that follow EDSCacheUpdate are fabricated in the shape of its callers (kube controller: ConfigsUpdated {Endpoints "
         "host/ns}; service event: SvcUpdate + {ServiceEntry host/ns})",
+        "lock discipline: the concurrent model runs lock regions atomically; that the code takes those locks (index write lock around "
+        "every write to shardsBySvc, the shard set's own write lock around every write to Shards / ServiceAccounts / unlinked, at least the "
+        "read lock around every read, in endpointshards.go, push_context.go, endpoint_builder.go) is read off the checked tree on every "
+        "run (go/ast extractor harness/c13/facts.go, syntactic: no type information, aliases and helpers by the rules stated there) and "
+        "proved from the generated table in LockTie.lean; the -race stress searches for the interleaving when a fact changes",
+        "concurrent model: every goroutine runs ONE operation; any number of goroutines (a registry's event queue calls the index "
+        "sequentially, so one goroutine with several operations is a sequence of goroutines that do not overlap)",
+        "progress of the retry loop of the repaired UpdateServiceEndpoints is a hypothesis of index_linearizable (allDone: the schedule "
+        "runs every goroutine to completion), not a theorem: an update can in principle be unlinked again on every retry",
+        "linearizability is stated for the index state only; what a proxy is SERVED is tied sequentially (cla stream): no assignment is "
+        "built in the middle of a scripted interleaving, and the coherence of the XdsCache with the index under concurrency "
+        "(clearCacheForService inside the write region vs a concurrent generator Add) is not modelled - the race stress runs "
+        "BuildClusterLoadAssignment readers next to writers, but judges only data races, crashes and the final sequential clause",
+        "cla world: one namespace for services, endpoints and proxies; one DestinationRule per host, exported everywhere; subset-level "
+        "policies without port-level settings of their own (rule-level portLevelSettings and subset-level trafficPolicy are generated)",
     ]
     ctx.trusted.append("pilot/pkg/model/zz_verif_c13.go + zz_verif_c13_noop.go and the three verifGate(...) lines in endpointshards.go "
                        "(gate points; empty inlinable function without the build tag)")
@@ -152,10 +303,21 @@ def run(ctx):
                        "pilot/pkg/xds/zz_verif_c03.go (VerifC03PushConnection / VerifC03PushConnectionDelta) and zz_verif_c04.go "
                        "(VerifNewConnection / VerifNewDeltaConnection): accessors of the unexported per-connection push path; the "
                        "recording gRPC stream the responses are read from; proxy localities are set on model.Proxy directly")
-    proved = ctx.lean_prove(THEOREMS)
-    if not ctx.build_drv():
-        return
     if not ctx.go_build():
+        return
+    rb = start_race_build(ctx)
+    ctx.c13_rb = rb
+    try:
+        run_rest(ctx)
+    finally:
+        if rb["proc"].poll() is None:
+            rb["proc"].kill()  # the run ended early
+
+
+def run_rest(ctx):
+    rb = ctx.c13_rb
+    proved = ctx.lean_prove(lock_tie(ctx))
+    if not ctx.build_drv():
         return
     ctx.diff_stream("index", ctx.n(1200, 30000), oracle=oracle)
     # real goroutines parked / released at the verif gates in scripted orders vs the lock-region model
@@ -201,6 +363,8 @@ def run(ctx):
                 ctx.violation(fingerprint(stream, clause),
                               WHAT.get(clause, "endpoint index (%s) violates clause '%s' on the real code" % (stream, clause)),
                               {"stream": stream, "ops": case_of(ctx, g, i), "oracle_verdict": v}, True)
+    # last: the search that belongs to the lock-discipline tie
+    race_stress(ctx, rb)
 
 
 def replay(ctx, path):
@@ -209,6 +373,17 @@ def replay(ctx, path):
     rep = obj.get("replay", {})
     ops = rep.get("ops") or (rep.get("extra") or {}).get("ops")
     stream = rep.get("stream") or (rep.get("extra") or {}).get("stream") or "index"
+    if stream == "stress":
+        # a concurrent run is not replayed step by step: the same stress (same seed, same goroutines) runs again
+        if not ctx.go_build():
+            return
+        ctx.seed = rep.get("seed", ctx.seed)
+        race_stress(ctx, start_race_build(ctx))
+        return
+    if obj.get("fingerprint", "").startswith("tie-broken:lock-discipline"):
+        if ctx.go_build():
+            lock_tie(ctx)
+        return
     if not ops:
         ctx.log("replay file has no ops; re-running the full check")
         return run(ctx)
@@ -262,7 +437,17 @@ MANIFEST = {
                    "produced by the real EdsGenerator from the PushRequests EDSUpdate really issued, in a single-network and a "
                    "multi-network FakeDiscoveryServer world, with an independent membership / gateway-weight oracle and a "
                    "served-equals-current check); the gate hook pilot/pkg/model/zz_verif_c13*.go and the push-path accessors "
-                   "pilot/pkg/xds/zz_verif_c03.go / zz_verif_c04.go; mutex atomicity. Not modelled: "
+                   "pilot/pkg/xds/zz_verif_c03.go / zz_verif_c04.go; mutex atomicity; that the code takes the locks the regions stand for is a "
+                   "regenerated source fact (go/ast extractor harness/c13/facts.go -> LockTie.lean, 8 theorems by decide) searched by an "
+                   "ungated race-detector stress of the real index (4 updaters, 2 deleters, 3 BuildClusterLoadAssignment / CopyEndpoints / "
+                   "Shardz readers, 6 s quick / 30 s thorough; only race reports, runtime fatals, panics and a final sequential clause count). "
+                   "Anchors with no model, theorem, stream or oracle (not reachable in the world built here): findServiceWaypoint / "
+                   "weightedWaypointEndpoints and waypoint edsNeedsPush, tunnel / HBONE addresses and AdditionalAddresses in the built "
+                   "LbEndpoint, the serviceInfo scope, populateFailoverPriorityLabels and all of loadbalancer.go except distribute "
+                   "(failover, failoverPriority, zone-aware), EndpointsWithMTLSFilter and the ambient branches of ep_filters.go, self-discovery "
+                   "(affectedService / parseClusterName), WithSubset / FromServiceEndpoints, the InferencePool branch of "
+                   "ServiceEndpointsByPort, the ServiceIndex-reuse path of push_context. The partial-push selection of eds.go has a real "
+                   "stream and the served-is-current clause but no model of its own. Not modelled: "
                    "locality-LB priorities / failover / failoverPriority / zone-aware / TrafficDistribution (of "
                    "loadbalancer.ApplyToLoadAssignment only distribute is), ambient multi-network, waypoint, self-discovery, inference-pool "
                    "and HBONE-tunnel endpoints, AdditionalAddresses beyond Equals, DestinationRule TLS / PeerAuthentication modes other than "
